@@ -13,6 +13,13 @@ BASES = [
      {"op": "attr", "p": "/x", "n": "a", "v": "s40"}, {"op": "hlink", "p": "/lx", "t": "/x"}],
     [{"op": "mkgroup", "p": "/a"}, {"op": "mkgroup", "p": "/a/b"}, {"op": "attr", "p": "/a/b", "n": "n", "v": "ad3"},
      {"op": "mkds", "p": "/a/b/s", "dt": "str8", "dims": [2]}, {"op": "write", "p": "/a/b/s", "data": "rnd"}],
+    # hard links FOLLOWED by attributes on their target (what a failing call might roll back is then not the link's own trace)
+    [{"op": "mkds", "p": "/y", "dt": "i32", "dims": [3]}, {"op": "write", "p": "/y", "data": "seq"}, {"op": "hlink", "p": "/ly", "t": "/y"},
+     {"op": "attr", "p": "/y", "n": "a", "v": "i32"}, {"op": "attr", "p": "/y", "n": "b", "v": "s40"}, {"op": "mkgroup", "p": "/h"},
+     {"op": "hlink", "p": "/h/l2", "t": "/y"}, {"op": "attr", "p": "/y", "n": "c", "v": "ad3"}],
+    # a resizable dataset without a maximum, hard-linked, with attributes in dense storage
+    [{"op": "mkds", "p": "/z", "dt": "i64", "dims": [4], "chunk": [2], "max": [-1]}, {"op": "write", "p": "/z", "data": "seq"},
+     {"op": "hlink", "p": "/lz", "t": "/z"}] + [{"op": "attr", "p": "/z", "n": "n%d" % i, "v": ["i32", "s40", "f64"][i % 3]} for i in range(10)],
 ]
 
 # the failure catalogue: calls chosen to fail at each validation point (whether the library really
@@ -45,6 +52,17 @@ def failing_ops(base):
     ]
     for g in gs[:1]:
         out += [{"op": "mkgroup", "p": g}, {"op": "mkds", "p": g, "dt": "i8", "dims": [1]}]
+    # a hard link under a name that is taken (by a link to the same target, or to anything)
+    for o in base:
+        if o["op"] == "hlink":
+            out += [{"op": "hlink", "p": o["p"], "t": o["t"]}, {"op": "hlink", "p": o["p"], "t": d}]
+    # sizes whose byte count overflows 64 bits / is absurd: refused or not, the call must be all or nothing
+    huge = 1 << 62
+    out += [{"op": "mkds", "p": "/huge1", "dt": "i64", "dims": [huge], "chunk": [2]},
+            {"op": "mkds", "p": "/huge2", "dt": "i64", "dims": [huge], "chunk": [2], "max": [-1]},
+            {"op": "mkds", "p": "/huge3", "dt": "i64", "dims": [huge]},
+            {"op": "mkds", "p": "/huge4", "dt": "f64", "dims": [1 << 31, 1 << 31], "chunk": [2, 2]},
+            {"op": "resize", "p": d, "dims": [huge]}, {"op": "resize", "p": d, "dims": [1 << 61]}]
     return out
 
 
@@ -116,8 +134,9 @@ def run(ctx):
         nontrivial=lambda c: len(c["ops"]) >= 3,
         rule="cases = every history of <= Depth calls generated by TLC from H5Logical with all rejected-call actions enabled "
              "(duplicate, missing parent, mismatching write, unsupported attribute value, absent delete, resize beyond max / "
-             "wrong rank, calls on a closed writer, repeated Close) plus the failure catalogue: 3 valid base histories with each of "
-             "~38 invalid calls inserted at every position, pairs of failures, Close x1..3 at every position, capacity points "
+             "wrong rank, calls on a closed writer, repeated Close) plus the failure catalogue: 5 valid base histories (two of them with "
+             "hard links followed by attributes on the target, one with dense attributes and an unlimited maximum) with each of "
+             "~45 invalid calls (incl. hard links under a taken name, extents whose byte size overflows) inserted at every position, pairs of failures, Close x1..3 at every position, capacity points "
              "(33rd group entry, name heap, many attributes); a failed call must leave the reopened content equal to the model "
              "that ignored it, later valid calls must succeed (sure cases), nothing may panic; non-trivial = >= 3 calls")
 
